@@ -1,6 +1,32 @@
-//! C03: not implemented yet.
+//! C03: signing round trip through the public API.
+//! case: {spec: builder-spec (see e2e.rs), want_jumbf: bool?}
+//! out:  {r:"ok", state, report (e2e::report), view (e2e::full_view), asset_len, manifest_len, src_len}
+//!     | {r:"sign_err", kind, detail} | {r:"read_err", kind, detail}
 use serde_json::{json, Value};
 
-pub fn run(_case: &Value) -> Value {
-    json!({"r": "unimplemented"})
+use crate::{e2e, util::*};
+
+pub fn run(case: &Value) -> Value {
+    e2e::clear_cache();
+    let spec = &case["spec"];
+    let src_len = e2e::materialize(&spec["src"]).map(|x| x.1.len()).unwrap_or(0);
+    let signed = match e2e::sign_spec(spec) {
+        Ok(s) => s,
+        Err(e) => return json!({"r": "sign_err", "kind": err_class(&e), "detail": format!("{e}").chars().take(300).collect::<String>()}),
+    };
+    let embedded_jumbf = c2pa::jumbf_io::load_jumbf_from_memory(&signed.fmt, &signed.asset).ok();
+    let reader = match e2e::read_signed(spec, &signed) {
+        Ok(r) => r,
+        Err(e) => return json!({"r": "read_err", "kind": err_class(&e), "detail": format!("{e}").chars().take(300).collect::<String>(),
+                                 "asset_len": signed.asset.len(), "manifest_len": signed.manifest.len()}),
+    };
+    let mut out = json!({"r": "ok", "report": e2e::report(&reader), "view": e2e::full_view(&reader),
+           "asset_len": signed.asset.len(), "manifest_len": signed.manifest.len(), "src_len": src_len,
+           "embedded_len": embedded_jumbf.as_ref().map(|j| j.len()),
+           "embedded_equals_returned": embedded_jumbf.as_ref().map(|j| j == &signed.manifest),
+           "is_embedded": reader.is_embedded(), "remote_url": reader.remote_url()});
+    if case["want_jumbf"].as_bool().unwrap_or(false) {
+        out["jumbf"] = json!(hexe(&signed.manifest));
+    }
+    out
 }
